@@ -5,6 +5,7 @@ circumcentres, weights) are compared as exact dyadics against exact integer/rati
 explicit tolerances; nothing is compared float against float.
 -/
 import Spade.Extra
+import Spade.Algo.Locate
 namespace Spade
 
 def scale1074N : Nat := 2 ^ 1074
@@ -235,6 +236,13 @@ def judgeExtra2 (hNew hOld : HCtx) (op res : Array String) (dump : Option St) : 
         let pb := s.P b
         let can := hOld.abs.canAdd a b
         let newIdx := (List.range d.nV).filter (· ≥ s.nV)
+        -- signature feature of finding K8: a computed split position coincides (within rounding,
+        -- 2^-40 of the extent, 2^-16 for f32) with a vertex that already existed
+        let ext := s.extent [pa, pb]
+        let eps := ext / 2 ^ (if f32 then 16 else 40)
+        let nearVertex := ctor.any fun c => (List.range s.nV).any fun i =>
+          decide (((s.P i).x - c.x).natAbs ≤ eps.natAbs) && decide (((s.P i).y - c.y).natAbs ≤ eps.natAbs)
+        let nv := if nearVertex then " nearVertex=1" else " nearVertex=0"
         let f1 := chk (oldVerticesKept s d) "C13" "split-changed-existing-vertex" (fun _ => "")
         let f2 := chk (newIdx.all fun i => ctor.contains (d.P i) && d.data.getD i 0 == 777000) "C13"
           "split-vertex-not-from-constructor" (fun _ => s!"new={newIdx.length} ctor={ctor.length}")
@@ -253,7 +261,7 @@ def judgeExtra2 (hNew hOld : HCtx) (op res : Array String) (dump : Option St) : 
         let hf := { hOld with floatVerts := hOld.floatVerts || !newIdx.isEmpty }
         let sf := checkState hf d "C13"
         ({ hNew with abs := a', cur := d, lastLoc := none, tainted := !sf.isEmpty, floatVerts := hf.floatVerts },
-          f1 ++ f2 ++ f3 ++ f4 ++ f5 ++ f6 ++ f7 ++ sf)
+          ((f1 ++ f2 ++ f3 ++ f4 ++ f5 ++ f6 ++ f7).map fun f => { f with detail := f.detail ++ nv }) ++ sf)
       | _, _ => (hNew, [⟨"INTERNAL", "protocol", s!"consplit: {res.toList}"⟩])
     | _, _, _ => (hNew, [⟨"INTERNAL", "protocol", "consplit: args/dump"⟩])
   | "refine" =>
@@ -426,6 +434,17 @@ def judgeExtra2 (hNew hOld : HCtx) (op res : Array String) (dump : Option St) : 
           (hNew, chk (sameNatSet vs cv && vs.eraseDups.length == vs.length) "C19" "natural-neighbors-wrong" feat ++
                  (if wellConditioned s fsx 12 then chk (weightsNumericOK s q ws k) "C19" "weights-numerically-wrong" feat else []))
     | _, _ => (hNew, [⟨"INTERNAL", "protocol", s!"{name}: {res.toList}"⟩])
+  | "loch" =>
+    -- R3: the code-mirroring model of locate_with_hint on the dumped links must give the very same
+    -- answer as the implementation (two-dimensional states; integer families, where the float
+    -- distances of the initial walk are exact)
+    if exactFam hOld.fam && 1 < s.nF && 2 ≤ s.nV then
+      match parsePt (op.getD 1 "") (op.getD 2 ""), parseNat (op.getD 3 ""), parseLoc res with
+      | some q, some hint, some r =>
+        (hNew, chk (s.locateM q hint == some r) "C09:model" "locate-model-differs"
+          (fun _ => s!"q={q} hint={hint} impl={res.toList} model={repr (s.locateM q hint)}"))
+      | _, _, _ => (hNew, [])
+    else (hNew, [])
   | _ => (hNew, [])
 
 end Spade
